@@ -535,6 +535,9 @@ def run_case(case):
     if scn["exec"].get("strict_resize"):
         # scenario input: the user turned this one warning into an error (as -W error::UserWarning or pytest's filterwarnings do)
         warnings.filterwarnings("error", message="Trying to resize an executor with running jobs")
+    if scn["exec"].get("strict_warnings"):
+        # scenario input: -W error::UserWarning
+        warnings.filterwarnings("error", category=UserWarning)
     sc = Scenario(scn)
     pol = Policy(case.get("policy", {}), case.get("seed", 0))
     sc.policy = pol
